@@ -617,6 +617,57 @@ fn input_shapes(prop: Prop, acc: &mut Acc) {
     }
 }
 
+/// Mid-range sweep: ordinary magnitudes, calendar positions, decimal scales, longer strings and
+/// collections — every unary kind on every value, every binary kind on every pair within a
+/// compatible group (plus the date/duration and collection/item cross groups).
+fn sweep_apps() -> Vec<App> {
+    let ints = pool::sweep_ints();
+    let decs = pool::sweep_decimals();
+    let floats = pool::sweep_floats();
+    let strs = pool::sweep_strings();
+    let dts = pool::sweep_datetimes();
+    let durs = pool::sweep_durations();
+    let lists = pool::sweep_lists();
+    let maps = pool::sweep_maps();
+    let mut apps = Vec::new();
+    for group in [&ints, &decs, &floats, &strs, &dts, &durs, &lists, &maps] {
+        for v in group.iter() {
+            for op in ALL_UNOPS {
+                apps.push(App::Un(op, v.clone()));
+            }
+            for n in [0usize, 1, 5, 6, 11, 12, 39, 40] {
+                apps.push(App::IdxN(v.clone(), n));
+            }
+            for f in ["a", "k0", "k11", "k12", "needle", "hay"] {
+                apps.push(App::IdxF(v.clone(), f.to_string()));
+            }
+        }
+    }
+    let pairs = |a: &Vec<RV>, b: &Vec<RV>, apps: &mut Vec<App>, cap: usize| {
+        for x in a.iter().take(cap) {
+            for y in b.iter().take(cap) {
+                for op in ALL_BINOPS {
+                    apps.push(App::Bin(op, x.clone(), y.clone()));
+                }
+            }
+        }
+    };
+    pairs(&ints, &ints, &mut apps, 200);
+    pairs(&decs, &decs, &mut apps, 80);
+    pairs(&floats, &floats, &mut apps, 200);
+    pairs(&strs, &strs, &mut apps, 100);
+    pairs(&durs, &durs, &mut apps, 60);
+    // date x duration, date x date (every 9th day keeps the product small), collections x items
+    let dts_some: Vec<RV> = dts.iter().step_by(9).cloned().collect();
+    pairs(&dts_some, &durs, &mut apps, 100);
+    pairs(&dts_some, &dts_some, &mut apps, 100);
+    let items: Vec<RV> = ints.iter().take(30).chain(strs.iter().take(40)).chain(floats.iter().take(5)).chain(decs.iter().take(5)).cloned().chain([RV::None, RV::Bool(true)]).collect();
+    pairs(&lists, &items, &mut apps, 100);
+    pairs(&maps, &items, &mut apps, 100);
+    pairs(&items, &lists, &mut apps, 100);
+    apps
+}
+
 /// E4 — composition: every node kind in every child position of every node kind (thorough: chains
 /// of three kinds), leaves from a small pool, evaluated whole and compared with the reference
 /// evaluator (first error wins, sub-results feed the parent).
@@ -787,6 +838,12 @@ pub fn run(prop: Prop, tier: Tier) -> i32 {
     let (acc2, results2) = par_run(prop, &apps2, &lit_core, thorough, true);
     rep.absorb(acc2);
     let new2 = results2.iter().filter(|v| !v0set.contains(*v) && !results1.contains(*v)).count();
+
+    // mid-range sweep (round 1b)
+    let sweep = sweep_apps();
+    let (acc_s, _) = par_run(prop, &sweep, &lit_core, false, true);
+    rep.bound("midrange_sweep_applications", sweep.len());
+    rep.absorb(acc_s);
 
     // composition (C01: no panic; C02: composite = composition of sub-results)
     if matches!(prop, Prop::C01 | Prop::C02 | Prop::C04) {
